@@ -145,3 +145,26 @@ def is_compound(expr):
     while isinstance(expr, ast.UnaryOp) and isinstance(expr.op, ast.Not):
         expr = expr.operand
     return isinstance(expr, (ast.BoolOp, ast.IfExp)) or (isinstance(expr, ast.Compare) and len(expr.ops) > 1)
+
+
+def atoms_of(expr):
+    """set of atomic terms (polarity dropped) occurring anywhere in a boolean expression"""
+    while isinstance(expr, ast.UnaryOp) and isinstance(expr.op, ast.Not):
+        expr = expr.operand
+    if isinstance(expr, ast.BoolOp):
+        out = set()
+        for v in expr.values:
+            out |= atoms_of(v)
+        return out
+    if isinstance(expr, ast.Compare) and len(expr.ops) > 1:
+        out = set()
+        for c in split_chain(expr):
+            out |= atoms_of(c)
+        return out
+    if isinstance(expr, ast.IfExp):
+        return atoms_of(expr.test) | atoms_of(expr.body) | atoms_of(expr.orelse)
+    return {atom(expr)[0]}
+
+
+def atoms_of_text(text):
+    return atoms_of(ast.parse(text, mode="eval").body) if text.strip() else set()
